@@ -12,9 +12,9 @@ from sa.props._lib_a import (inlined_func, DEFER, Q, CallGraph, ICModel, group, 
                              sub0, targets_values)
 
 PROPERTY = "C05"
-TECHNIQUE = "finite-state typestate over the _inlineCallbacks CFG + dominance/def-use on the cancel helpers"
+TECHNIQUE = "structural typestate/dominance on driver and cancel helpers; exhaustive state evaluation of __iter__"
 EXPLANATION = (
-    "Decides the driver-side clauses only. _inlineCallbacks (typestate (waiting[0], helper pending, fired) propagated over the CFG): "
+    "Decides the driver-side clauses only. [structural] _inlineCallbacks (typestate (waiting[0], helper pending, fired) propagated over the CFG): "
     "the result Deferred fires at most once per run and nothing is resumed/registered after it; every exception of gen.send / "
     "throwExceptionIntoGenerator is caught (StopIteration/_DefGen_Return -> callback with e.value, BaseException -> errback()); a value "
     "is sent and a Failure thrown, decided on a fresh isinstance test; the helper is registered for both outcomes and continues the same "
@@ -26,6 +26,15 @@ EXPLANATION = (
     "paused or without result, re-reads the result after every yield, returns a value / raises a Failure. "
     "Not decided (declined): that user generator code observes outcomes exactly as a synchronous call would (semantics of user code)."
 )
+RULE_KINDS = {
+    # Deferred.__iter__ is evaluated by the checker's own evaluator over its whole abstract domain (see await/domain-complete)
+    "await/suspends": "finite-exhaustive", "await/not-while-paused": "finite-exhaustive", "await/only-with-result": "finite-exhaustive",
+    "await/value-returned-failure-raised": "finite-exhaustive", "await/yields-itself": "finite-exhaustive",
+    "await/result-reread-after-resume": "finite-exhaustive", "await/delivers-both-outcomes": "finite-exhaustive",
+    "await/domain-complete": "structural",
+    # everything else: typestate over the CFG, dominance / must-pass, def-use, exception escape, call-graph reachability
+    "*": "structural",
+}
 ASSUMPTIONS = [
     "context.run(f, *a) calls f(*a) synchronously and propagates its exception (contextvars semantics)",
     "Failure.throwExceptionIntoGenerator(gen) is gen.throw(...) of the wrapped exception",
@@ -395,6 +404,10 @@ def _need_protocol(M):
                             "(cell, pending, fired) typestate are not decided for this shape")
 
 
+DOMAIN_NOTE = ("one of the valuations of (paused, has a result, result is a Failure) x (first poll | each resume point with stale locals); "
+               "see await/domain-complete for why these are all the cases")
+
+
 class _Stale(Exception):
     pass
 
@@ -406,6 +419,22 @@ class _AwaitEval:
 
     def __init__(self, ctx, f):
         self.f, self.g = f, ctx.cfg(f)
+        self.locals = {x.id for x in ast.walk(f) if isinstance(x, ast.Name) and isinstance(x.ctx, ast.Store)}
+
+    def vocabulary(self):
+        """(atomic tests, those outside the vocabulary the evaluator decides) - the latter are explored both ways"""
+        tests, outside = [], []
+        for t in self.g.nodes:
+            if t.kind == "test" and self.g.reachable(t.id):
+                tests.append(src(t.ast))
+                for env in ({"paused": 0, "has": 1, "fail": 0},):
+                    try:
+                        v = self.val(t.ast, env, {k: "RES" for k in self.locals})
+                    except _Stale:
+                        v = "?"
+                    if v == "?":
+                        outside.append(src(t.ast))
+        return tests, outside
 
     def val(self, e, env, loc):
         """symbolic value: 'NORES' | 'RES' | True/False | '?'"""
@@ -416,6 +445,8 @@ class _AwaitEval:
                 if loc[e.id] == "STALE":
                     raise _Stale(e.id)
                 return loc[e.id]
+            if loc.get("*") == "STALE" and e.id in self.locals:     # after a suspension every local is out of date until re-assigned
+                raise _Stale(e.id)
             if e.id.endswith("_NO_RESULT"):
                 return "NORES"
             return "?"
@@ -521,6 +552,10 @@ class _AwaitEval:
         return out
 
 
+def short_text(node):
+    return src(node)[:40]
+
+
 def _check_await(ctx):
     import itertools
     itf = inlined_func(ctx, DEFER, "Deferred.__iter__")
@@ -566,26 +601,38 @@ def _check_await(ctx):
                 subject_ok, ok_fresh = False, False
             if kind != want or not subject_ok:
                 ok_kind = False
-        ctx.check(ok_susp, "await/suspends-only-without-result", cons, "the awaiter suspends although the Deferred has a result and is not paused")
-        ctx.check(ok_paused, "await/not-while-paused", cons, "an outcome is delivered although the Deferred is paused")
-        ctx.check(ok_has, "await/only-with-result", cons, "an outcome is delivered although the Deferred has no result (the _NO_RESULT marker would be delivered)")
+        ctx.check(ok_susp, "await/suspends-only-without-result", cons, detail=DOMAIN_NOTE, fails="the awaiter suspends although the Deferred has a result and is not paused")
+        ctx.check(ok_paused, "await/not-while-paused", cons, detail=DOMAIN_NOTE, fails="an outcome is delivered although the Deferred is paused")
+        ctx.check(ok_has, "await/only-with-result", cons, detail=DOMAIN_NOTE, fails="an outcome is delivered although the Deferred has no result (the _NO_RESULT marker would be delivered)")
         ctx.check(ok_kind, "await/value-returned-failure-raised", cons,
                   "the awaiter does not return a plain result / raise a Failure result (a Failure is returned, a value raised, or something other than the result delivered)")
-        ctx.check(ok_self, "await/yields-itself", cons, "the object handed to the driver is not the awaited Deferred itself")
-        ctx.check(ok_fresh, "await/result-reread-after-resume", cons, "after being resumed the awaiter uses the result it read before suspending (stale _NO_RESULT)")
+        ctx.check(ok_self, "await/yields-itself", cons, detail=DOMAIN_NOTE, fails="the object handed to the driver is not the awaited Deferred itself")
+        ctx.check(ok_fresh, "await/result-reread-after-resume", cons, detail=DOMAIN_NOTE, fails="after being resumed the awaiter uses the result it read before suspending (stale _NO_RESULT)")
         return resumes
+    tests, outside = E.vocabulary()
+    domain = ("finite-exhaustive: every valuation of (paused, has a result, result is a Failure) - the only facts about the Deferred the "
+              f"{len(tests)} branch conditions of __iter__ read ({'; '.join(tests)})"
+              + (f"; conditions outside that vocabulary are followed both ways: {'; '.join(outside)}" if outside else "")
+              + " - at the first poll and, as a fixpoint, at every resume point with all locals stale (so any number of suspensions is covered)")
+    ctx.ok("await/domain-complete", iq, domain)
+    pending, done = [], set()
     for env in envs:
         outs = E.poll(g.entry, env, {})
-        ctx.check(bool(outs), "await/delivers-both-outcomes", iq + " | " + lab(env), "no path through __iter__ for this state")
-        resumes = judge(outs, env, f"{iq} | first poll: {lab(env)}")
-        for n, loc in resumes[:2]:
-            stale = {k: "STALE" for k in loc}
-            for env2 in envs:
-                outs2 = []
-                for d, l in g.succ[n]:
-                    if l != "exc":
-                        outs2 += E.poll(d, env2, stale)
-                judge(outs2, env2, f"{iq} | after a suspension in {lab(env)}: {lab(env2)}")
+        ctx.check(bool(outs), "await/delivers-both-outcomes", iq + " | " + lab(env), "no path through __iter__ for this state", detail=domain)
+        pending += [n for n, _ in judge(outs, env, f"{iq} | first poll: {lab(env)}")]
+    # fixpoint over resume points: after a suspension the abstract state is (the yield it resumes from, every local stale)
+    while pending:
+        n = pending.pop()
+        if n in done:
+            continue
+        done.add(n)
+        where = short_text(g.node(n).ast)
+        for env2 in envs:
+            outs2 = []
+            for d, l in g.succ[n]:
+                if l != "exc":
+                    outs2 += E.poll(d, env2, {"*": "STALE"})
+            pending += [m for m, _ in judge(outs2, env2, f"{iq} | resumed at `{where}`: {lab(env2)}") if m not in done]
     ctx.check(any_yield, "await/suspends", iq, "__iter__ never yields: awaiting an unfired Deferred cannot suspend")
 
 
